@@ -2,7 +2,8 @@
 
 A: StreamSM (TLC): a reference incremental framer that keeps the RAW tail from the last frame start satisfies the framing
    property (Stream.Framing: MustCount <= frames handed over <= MayCount, in order, each once) for EVERY segmentation
-   (Arrive(n) for every n) of streams with special bytes at every body position, plus Complete and AppendOnly.
+   (Arrive(n) for every n, Idle = a read without new bytes) of streams with special bytes at every body position, plus Complete,
+   AppendOnly and IdleNoOp.
 B: the model's streams (its initial states, dumped) -> the real TcpClient: every single cut, pairs of cuts, 1-byte pieces,
    seeded multi-cuts; NetSource fed with message batches.
 Link: the whole receive path as one model (Trace_Link): the real receive loop TcpClient.run of a NetSource on a scripted
@@ -23,7 +24,7 @@ from . import c01
 def model_streams(ctx):
     pos = "{1, 7, 8, 14, 21}" if ctx.quick else "{1, 2, 6, 7, 8, 9, 13, 14, 15, 20, 21}"
     spc = "{26, 51, 0, 59}" if ctx.quick else "{26, 49, 50, 51, 52, 36, 42, 59, 0, 141, 255}"
-    base = ("SPECIFICATION Spec\nINVARIANT FramingHolds\nINVARIANT Complete\nPROPERTY AppendOnly\nCHECK_DEADLOCK FALSE\n"
+    base = ("SPECIFICATION Spec\nINVARIANT FramingHolds\nINVARIANT Complete\nPROPERTY AppendOnly\nPROPERTY IdleNoOp\nCHECK_DEADLOCK FALSE\n"
             "CONSTANTS\n Kinds = {\"beast\", \"raw\", \"skysense\"}\n Positions = %s\n Specials = %s\n MaxChunk = %%d\n" % (pos, spc))
     ctx.model_check("StreamSM", cfg_text=base % 200, what="C16 reference framer, all segmentations", timeout=3000)
     dump = os.path.join(ctx.tmp, "streams.dump")
@@ -363,7 +364,8 @@ def run(ctx):
             ctx.drift_kinds[why] = ctx.drift_kinds.get(why, 0) + 1
             continue
         small = {"fn": e["fn"], "id": e["id"], "kind": e.get("kind"), "frs": e.get("frs"), "cuts": e.get("cuts"),
-                 "batches": e.get("batches"), "src": e.get("src", "net"), "lower": e.get("lower", 0), "res": e["res"]}
+                 "batches": e.get("batches"), "src": e.get("src", "net"), "lower": e.get("lower", 0), "res": e["res"],
+                 "reader": e.get("reader", ""), "idle": e.get("idle", [])}
         ctx.violation(why, small)
 
 
@@ -374,7 +376,10 @@ def replay(ctx, path):
     for c in cases:
         e = c["event"]
         if e["fn"] == "stream.run":
-            V.append({"fn": "stream.run", "kind": e["kind"], "frs": e["frs"], "cuts": e["cuts"]})
+            v = {"fn": "stream.run", "kind": e["kind"], "frs": e["frs"], "cuts": e["cuts"]}
+            if e.get("reader"):
+                v["reader"], v["idle"] = e["reader"], e.get("idle", [])
+            V.append(v)
         elif e["fn"] == "link.run":
             continue
         else:
